@@ -21,7 +21,7 @@ ASSUMPTIONS = ["Redis and RabbitMQ are wire-level fakes (RabbitMQ rule R2: per-m
                "virtual time; bounded latency L = 10 s of virtual time after max(T, consumer start)",
                "early = more than 1 ms before T"]
 EVAL_COUNTER = "deliveries_judged"
-REQUIRED = ["deliveries_judged", "due_past", "due_subsecond", "due_seconds", "due_far", "visibility_probes", "multi_scenarios", "peek_scenarios", "peek_returns", "crowd_scenarios", "timezone_offset_runs"]
+REQUIRED = ["deliveries_judged", "due_past", "due_subsecond", "due_seconds", "due_far", "visibility_probes", "multi_scenarios", "peek_scenarios", "peek_returns", "crowd_scenarios", "timezone_offset_runs", "busy_consumer_scenarios"]
 CASE_TIMEOUT = 120
 
 OFFSETS = [-5.0, -0.000001, 0.0004, 0.3, 0.9995, 1.0, 1.5, 5.0, 3600.0, 2592000.0]
@@ -60,6 +60,10 @@ def gen_cases(tier, seed):
         if kind != "rabbit":  # (there a foreign message in front blocks by design: C11's finding)
             for k in ([8, 9, 10, 11, 19, 20, 21, 29, 30] if tier == "thorough" else [9, 10, 19, 20]):
                 cases.append({"type": "crowd", "kind": kind, "k": k, "own": rnd.choice([1, 3]), "phase": rnd.choice(PHASES), "seed": rnd.randrange(10**6)})
+        # a consumer that never finds the queue empty (a producer keeps a small backlog): a message that became due is still
+        # delivered after a bounded number of further deliveries
+        for backlog in (1, 3):
+            cases.append({"type": "busy", "kind": kind, "backlog": backlog, "seed": rnd.randrange(10**6)})
         # the same clock arithmetic on a machine whose local time is not UTC (due times are naive local datetimes)
         for tz in ("AAA-5", "BBB5"):
             cases.append({"type": "tz", "kind": kind, "tz": tz, "seed": rnd.randrange(10**6)})
@@ -249,6 +253,63 @@ async def multi(loop, case, out, stats, fps, samples):
         if len(samples) < 1:
             samples.append({"broker": kind, "dues_s": case["dues"], "delivered_minus_due_s": {k: round(got[k] - due[k], 4) for k in got}})
         await cons.finish()
+        await conn.disconnect()
+        stats["unknown_server_commands"] += rig.unknown_commands()
+    finally:
+        rig.close()
+
+
+async def busy(loop, case, out, stats, fps):
+    from repid.data._parameters import DelayProperties
+    from repid.message import MessageCategory
+    from rv.rigs import Rig, key_of
+
+    kind = case["kind"]
+    rig = Rig(kind, loop, latency=None, seed=case["seed"])
+    try:
+        conn = rig.make_connection("p1")
+        await conn.connect()
+        mb = conn.message_broker
+        await mb.queue_declare("q")
+        P = mb.PARAMETERS_CLASS
+        T = datetime.now() + timedelta(seconds=1.5)
+        await mb.enqueue(key_of(conn, "due", "t", "q"), "p", P(delay=DelayProperties(next_execution_time=T)))
+        n = 0
+        for _ in range(case["backlog"]):
+            await mb.enqueue(key_of(conn, f"r{n:04d}", "t", "q"), "p", P())
+            n += 1
+        cons = mb.get_consumer("q", ["t"], None, MessageCategory.NORMAL)
+        await cons.start()
+        got_at = None
+        early = False
+        deliveries_after_T = 0
+        limit = 60 + case["backlog"]
+        t_end = loop.time() + 40.0
+        while loop.time() < t_end and deliveries_after_T < limit:
+            try:
+                key, _, _ = await asyncio.wait_for(cons.consume(), 5.0)
+            except asyncio.TimeoutError:
+                break
+            now = datetime.now()
+            if key.id_ == "due":
+                got_at = now
+                early = now < T - timedelta(milliseconds=1)
+                await mb.ack(key)
+                break
+            if now >= T:
+                deliveries_after_T += 1
+            await mb.ack(key)
+            await mb.enqueue(key_of(conn, f"r{n:04d}", "t", "q"), "p", P())  # keep the backlog where it was
+            n += 1
+            await asyncio.sleep(0.05)
+        await cons.finish()
+        stats["busy_consumer_scenarios"] += 1
+        stats["deliveries_judged"] += 1
+        fps.add(f"{kind}/busy/{case['backlog']}")
+        if early:
+            out.append(V("early", kind, "busy-consumer", f"delivered at {got_at}, due {T}"))
+        elif got_at is None:
+            out.append(V("late", kind, "busy-consumer", f"due message not delivered although the consumer was handed {deliveries_after_T} other messages after T (backlog kept at {case['backlog']}); state {rig.snapshot().get('due')}"))
         await conn.disconnect()
         stats["unknown_server_commands"] += rig.unknown_commands()
     finally:
@@ -495,6 +556,10 @@ def run_case(case):
         res = vl.run(lambda loop: multi(loop, case, out, stats, fps, samples), max_steps=3_000_000, seed=case["seed"])
         if res.exc is not None:
             out.append(V("harness_or_api_error", case["kind"], "multi", f"{type(res.exc).__name__}: {res.exc}"))
+    elif case["type"] == "busy":
+        res = vl.run(lambda loop: busy(loop, case, out, stats, fps), max_steps=6_000_000, seed=case["seed"])
+        if res.exc is not None:
+            out.append(V("harness_or_api_error", case["kind"], "busy", f"{type(res.exc).__name__}: {res.exc}"))
     elif case["type"] == "tz":
         import os
         import time as _time
